@@ -48,7 +48,7 @@ package xsync
 //@ define pow2(n) = n > 0 && (n & (n - 1)) == 0
 //@ define idxOf(t, k) = u64(nbk(t) - 1) & hashString(k, t.seed)
 //@ define tblShape(t) = t != nil && allocated(t) && wfslice(t.buckets) && pow2(nbk(t)) && wfslice(t.size) && pow2(len(t.size))
-//@ define chains(t) = forall b: *bucketPadded :: own(t, b) ==> b != nil && allocated(b) && allocated(b.next) && ridx[b] < u64(nbk(t)) && own(t, rootOf(t, b)) && 0 <= pos[b] && pos[b] < clen[rootOf(t, b)] && ((pos[b] == 0) == (b == rootOf(t, b))) && (b.next != nil ==> own(t, b.next) && ridx[b.next] == ridx[b] && pos[b.next] == pos[b] + 1) && (b.next == nil ==> pos[b] == clen[rootOf(t, b)] - 1)
+//@ define chains(t) = forall b: *bucketPadded :: own(t, b) ==> b != nil && hastype(b, bucketPadded) && allocated(b) && allocated(b.next) && ridx[b] < u64(nbk(t)) && own(t, rootOf(t, b)) && 0 <= pos[b] && pos[b] < clen[rootOf(t, b)] && ((pos[b] == 0) == (b == rootOf(t, b))) && (b.next != nil ==> own(t, b.next) && ridx[b.next] == ridx[b] && pos[b.next] == pos[b] + 1) && (b.next == nil ==> pos[b] == clen[rootOf(t, b)] - 1)
 //@ define roots(t) = forall j: uint64 :: j < u64(nbk(t)) ==> own(t, root(t, j)) && ridx[root(t, j)] == j && pos[root(t, j)] == 0
 //@ define chainsInj(t) = forall b1: *bucketPadded, b2: *bucketPadded :: own(t, b1) && own(t, b2) && ridx[b1] == ridx[b2] && pos[b1] == pos[b2] ==> b1 == b2
 //@ define present3(w, i) = ((w >> (u64(i) + 1)) & 1) == 1
@@ -58,7 +58,10 @@ package xsync
 //@ define viewSlots(t) = forall k: string :: present(tview[t][k]) ==> own(t, slotb[t][k]) && 0 <= sloti[t][k] && sloti[t][k] < 3 && as(slotb[t][k], "*bucketPadded").keys[sloti[t][k]] != nil && keyAt(as(slotb[t][k], "*bucketPadded"), sloti[t][k]) == k
 //@ define locksFree(t) = forall b: *bucketPadded :: own(t, b) ==> (b.topHashMutex & 1) == 0
 //@ define tableInv(t) = tblShape(t) && chains(t) && roots(t) && chainsInj(t) && slots(t) && viewSlots(t)
-//@ define mapRI(m) = m != nil && m.resizing == 0 && pow2(m.minTableLen) && tableInv(tab(m)) && locksFree(tab(m)) && view(m) == tview[tab(m)]
+//@ define sepT(m, t) = objid(m) != objid(t) && objid(m) != objid(root(t, 0)) && objid(m) != objid(addr(t.size[0])) && objid(t) != objid(root(t, 0)) && objid(t) != objid(addr(t.size[0])) && objid(root(t, 0)) != objid(addr(t.size[0]))
+//@ define sepB(m, t) = forall b: *bucketPadded :: own(t, b) ==> objid(b) != objid(m) && objid(b) != objid(t) && objid(b) != objid(addr(t.size[0]))
+//@ define mapRIx(m) = m != nil && m.resizing == 0 && pow2(m.minTableLen) && tableInv(tab(m)) && locksFree(tab(m)) && sepT(m, tab(m)) && sepB(m, tab(m))
+//@ define mapRI(m) = mapRIx(m) && view(m) == tview[tab(m)]
 
 // ---------------------------------------------------------------------------------------------
 // Disciplines on the table layer (C13 lock set / monitor, C14 access classes, C05 invocation counts, C16 effects).
@@ -103,9 +106,9 @@ package xsync
 //@   serves C13 C14
 //@   requires m != nil && knownTable != nil && tblShape(knownTable) && tblShape(tab(m)) && pow2(m.minTableLen) && 0 <= hint && hint <= 2
 //@   effect blocking nolocks
-//@   modifies allmem, view(m), tview, slotb, sloti, tbl, ridx, pos, clen
+//@   modifies allmem, tview, slotb, sloti, tbl, ridx, pos, clen
 //@   loop for.loop: invariant shape: newTable != nil && tblShape(newTable) && tblShape(table) && table != nil && 0 <= i
-//@   ensures assumed private keeps: hint != 2 ==> mapRI(m) && view(m) == old(view(m))
+//@   ensures assumed private keeps: hint != 2 ==> mapRIx(m) && tview[tab(m)] == old(tview[tab(m)])
 //@   ensures {C13} monitor.no-lost-wakeup: monitorOK()
 //@   ensures {C13} post.released: nheld() == 0
 
@@ -118,7 +121,7 @@ package xsync
 //@ func (*mapTable).addSize
 //@   serves C13 C14
 //@   requires table != nil && wfslice(table.size) && pow2(len(table.size))
-//@   modifies allmem
+//@   modifies mem(table.size[u64(len(table.size) - 1) & bucketIdx].c)
 //@   ensures {C16} effect.nolock: nacquire() == 0 && nblocking() == 0
 
 //@ func (*mapTable).addSizePlain
@@ -159,17 +162,16 @@ package xsync
 //@   modifies view(m), allmem, tview, slotb, sloti, tbl, ridx, pos, clen
 //@   let o = old(view(m))[key]
 //@   let called = !(loadIfExists && present(o))
-//@   let t0 = old(tab(m))
 //@   loop compute_attempt: invariant {C05} noinvocation: ncb(valueFn) == 0 && nheld() == 0
-//@   loop compute_attempt: invariant {C11,C03} unchanged: mapInv(m) && mapRI(m) && view(m) == old(view(m)) && tab(m) == t0 && called
-//@   loop for.body: invariant cursor: b != nil && rootb != nil && holds(addr(rootb.topHashMutex)) && table == t0 && ncb(valueFn) == 0
-//@   loop for.body: invariant {C11,C03} walk: own(t0, b) && ridx[b] == idxOf(t0, key) && rootb == root(t0, idxOf(t0, key)) && hash == hashString(key, t0.seed) && (present(o) ==> pos[slotb[t0][key]] >= pos[b])
-//@   loop for.body: invariant {C11,C03} empty: emptyb != nil ==> own(t0, emptyb) && ridx[emptyb] == idxOf(t0, key) && 0 <= emptyidx && emptyidx < 3 && emptyb.keys[emptyidx] == nil
-//@   loop for.body: decreases clen[rootOf(t0, b)] - pos[b]
-//@   loop for.loop: invariant idx: 0 <= i && i <= 3 && b != nil && rootb != nil && holds(addr(rootb.topHashMutex)) && table == t0 && ncb(valueFn) == 0 && topHashes == b.topHashMutex
-//@   loop for.loop: invariant {C11,C03} walk: own(t0, b) && ridx[b] == idxOf(t0, key) && rootb == root(t0, idxOf(t0, key)) && hash == hashString(key, t0.seed) && (present(o) ==> pos[slotb[t0][key]] >= pos[b])
+//@   loop compute_attempt: invariant {C11,C03} unchanged: mapInv(m) && mapRI(m) && view(m) == old(view(m)) && called
+//@   loop for.body: invariant cursor: b != nil && rootb != nil && holds(addr(rootb.topHashMutex)) && table == tab(m) && ncb(valueFn) == 0
+//@   loop for.body: invariant {C11,C03} walk: own(table, b) && ridx[b] == idxOf(table, key) && rootb == root(table, idxOf(table, key)) && hash == hashString(key, table.seed) && (present(o) ==> pos[slotb[table][key]] >= pos[b])
+//@   loop for.body: invariant {C11,C03} empty: emptyb != nil ==> own(table, emptyb) && ridx[emptyb] == idxOf(table, key) && 0 <= emptyidx && emptyidx < 3 && emptyb.keys[emptyidx] == nil
+//@   loop for.body: decreases clen[rootOf(table, b)] - pos[b]
+//@   loop for.loop: invariant idx: 0 <= i && i <= 3 && b != nil && rootb != nil && holds(addr(rootb.topHashMutex)) && table == tab(m) && ncb(valueFn) == 0 && topHashes == b.topHashMutex
+//@   loop for.loop: invariant {C11,C03} walk: own(table, b) && ridx[b] == idxOf(table, key) && rootb == root(table, idxOf(table, key)) && hash == hashString(key, table.seed) && (present(o) ==> pos[slotb[table][key]] >= pos[b])
 //@   loop for.loop: invariant {C11,C03} scanned: forall j: int :: 0 <= j && j < i ==> !(b.keys[j] != nil && keyAt(b, j) == key)
-//@   loop for.loop: invariant {C11,C03} empty: emptyb != nil ==> own(t0, emptyb) && ridx[emptyb] == idxOf(t0, key) && 0 <= emptyidx && emptyidx < 3 && emptyb.keys[emptyidx] == nil
+//@   loop for.loop: invariant {C11,C03} empty: emptyb != nil ==> own(table, emptyb) && ridx[emptyb] == idxOf(table, key) && 0 <= emptyidx && emptyidx < 3 && emptyb.keys[emptyidx] == nil
 //@   loop for.loop: decreases 3 - i
 //@   oncall valueFn: {C05,C13} under-root-lock: nheld() == 1 && holds(addr(rootb.topHashMutex))
 //@   oncall valueFn: {C05,C03} validated: validated()
@@ -178,9 +180,19 @@ package xsync
 //@   ensures {C05} valueFn.atmostonce: ncb(valueFn) <= 1
 //@   ensures {C16} fastpath.nolock: loadIfExists && ncall("Load") == 1 && lastret("Load", 1) ==> nacquire() == 0 && nblocking() == 0
 //@   ensures {C11,C03} post.loaded: !called ==> res0 == val(o) && res1 == !computeOnly && view(m) == old(view(m))
-//@   ensures {C11,C03} post.deleted: called && del ==> view(m) == remove(old(view(m)), key) && res0 == valOr0(o) && res1 == (present(o) && !computeOnly)
-//@   ensures {C11,C03} post.stored: called && !del ==> view(m) == put(old(view(m)), key, nv) && res0 == ite(computeOnly || !present(o), nv, val(o)) && res1 == (computeOnly || present(o))
-//@   ensures private {C11,C03} post.ri: mapRI(m)
+//@   ensures {C11,C03} post.deleted.view: called && del ==> view(m) == remove(old(view(m)), key)
+//@   ensures {C11,C03} post.deleted.res: called && del ==> res0 == valOr0(o) && res1 == (present(o) && !computeOnly)
+//@   ensures {C11,C03} post.stored.view: called && !del ==> view(m) == put(old(view(m)), key, nv)
+//@   ensures {C11,C03} post.stored.res: called && !del ==> res0 == ite(computeOnly || !present(o), nv, val(o)) && res1 == (computeOnly || present(o))
+//@   ensures private {C11,C03} post.ri.shape: m != nil && m.resizing == 0 && pow2(m.minTableLen) && tblShape(tab(m))
+//@   ensures private {C11,C03} post.ri.chains: chains(tab(m))
+//@   ensures private {C11,C03} post.ri.roots: roots(tab(m))
+//@   ensures private {C11,C03} post.ri.inj: chainsInj(tab(m))
+//@   ensures private {C11,C03} post.ri.slots: slots(tab(m))
+//@   ensures private {C11,C03} post.ri.viewSlots: viewSlots(tab(m))
+//@   ensures private {C11,C03} post.ri.locksFree: locksFree(tab(m))
+//@   ensures private {C11,C03} post.ri.view: view(m) == tview[tab(m)]
+//@   ensures private {C11,C03} post.ri.sep: sepT(m, tab(m)) && sepB(m, tab(m))
 //@   ensures mapInv(m)
 
 //@ -- twin-end MapDisc
@@ -190,6 +202,28 @@ package xsync
 //@ define tabOf(m) = as(m.table, "*mapOfTable")
 //@ define tblShapeOf(t) = t != nil && allocated(t) && wfslice(t.buckets) && pow2(len(t.buckets)) && wfslice(t.size) && pow2(len(t.size))
 //@ define markOK(w) = (w & 18446743521797832575) == 0
+
+// ---- MapOf representation invariant (same ghost chain structure; 5 entries per bucket; SWAR meta word) ----
+//@ ghost tviewOf : [Addr][K]opt[V]
+//@ ghost slotbOf : [Addr][K]Addr
+//@ ghost slotiOf : [Addr][K]int
+//@ define hashOf(m, t, k) = apply(m.hasher, k, t.seed)
+//@ define idxOfO(m, t, k) = u64(len(t.buckets) - 1) & h1(hashOf(m, t, k))
+//@ define rootO(t, j) = addr(t.buckets[j])
+//@ define rootOfO(t, b) = rootO(t, ridx[b])
+//@ define entAt(b, i) = as(b.entries[i], "*entryOf")
+//@ define mbyte(w, i) = (w >> (u64(i) * 8)) & 255
+//@ define mbit(w, i) = ((w >> (u64(i) * 8 + 7)) & 1) == 1
+//@ define chainsO(t) = forall b: *bucketOfPadded :: own(t, b) ==> b != nil && hastype(b, bucketOfPadded) && allocated(b) && allocated(b.next) && ridx[b] < u64(len(t.buckets)) && own(t, rootOfO(t, b)) && 0 <= pos[b] && pos[b] < clen[rootOfO(t, b)] && ((pos[b] == 0) == (b == rootOfO(t, b))) && (b.next != nil ==> own(t, b.next) && ridx[b.next] == ridx[b] && pos[b.next] == pos[b] + 1) && (b.next == nil ==> pos[b] == clen[rootOfO(t, b)] - 1)
+//@ define rootsO(t) = forall j: uint64 :: j < u64(len(t.buckets)) ==> own(t, rootO(t, j)) && ridx[rootO(t, j)] == j && pos[rootO(t, j)] == 0
+//@ define chainsInjO(t) = forall b1: *bucketOfPadded, b2: *bucketOfPadded :: own(t, b1) && own(t, b2) && ridx[b1] == ridx[b2] && pos[b1] == pos[b2] ==> b1 == b2
+//@ define slotsO(m, t) = forall b: *bucketOfPadded, i: int :: own(t, b) && 0 <= i && i < 5 ==> ((b.entries[i] == nil) == (mbyte(b.meta, i) == 128)) && (b.entries[i] != nil ==> allocated(b.entries[i]) && mbyte(b.meta, i) == u64(h2(hashOf(m, t, entAt(b, i).key))) && idxOfO(m, t, entAt(b, i).key) == ridx[b] && tviewOf[t][entAt(b, i).key] == some(entAt(b, i).value) && slotbOf[t][entAt(b, i).key] == b && slotiOf[t][entAt(b, i).key] == i)
+//@ define viewSlotsO(t) = forall k: K :: present(tviewOf[t][k]) ==> own(t, slotbOf[t][k]) && 0 <= slotiOf[t][k] && slotiOf[t][k] < 5 && as(slotbOf[t][k], "*bucketOfPadded").entries[slotiOf[t][k]] != nil && entAt(as(slotbOf[t][k], "*bucketOfPadded"), slotiOf[t][k]).key == k
+//@ define tableInvO(m, t) = tblShapeOf(t) && chainsO(t) && rootsO(t) && chainsInjO(t) && slotsO(m, t) && viewSlotsO(t)
+//@ define sepTO(m, t) = objid(m) != objid(t) && objid(m) != objid(rootO(t, 0)) && objid(m) != objid(addr(t.size[0])) && objid(t) != objid(rootO(t, 0)) && objid(t) != objid(addr(t.size[0])) && objid(rootO(t, 0)) != objid(addr(t.size[0]))
+//@ define sepBO(m, t) = forall b: *bucketOfPadded :: own(t, b) ==> objid(b) != objid(m) && objid(b) != objid(t) && objid(b) != objid(addr(t.size[0]))
+//@ define mapOfRIx(m) = m != nil && m.hasher != nil && m.resizing == 0 && pow2(m.minTableLen) && tableInvO(m, tabOf(m)) && sepTO(m, tabOf(m)) && sepBO(m, tabOf(m))
+//@ define mapOfRI(m) = mapOfRIx(m) && view(m) == tviewOf[tabOf(m)]
 
 //@ func (*MapOf[K, V]).resizeInProgress
 //@   serves C13 C14
@@ -206,7 +240,8 @@ package xsync
 //@   serves C13 C14
 //@   requires m != nil
 //@   effect blocking nolocks
-//@   modifies allmem, allghost
+//@   modifies allmem, view(m), tviewOf, slotbOf, slotiOf, tbl, ridx, pos, clen
+//@   ensures assumed private keeps: mapOfRI(m) && view(m) == old(view(m)) && tabOf(m) == old(tabOf(m))
 //@   loop for.loop: invariant param: true
 //@   ensures {C13} post.released: nheld() == 0
 
@@ -214,8 +249,9 @@ package xsync
 //@   serves C13 C14
 //@   requires m != nil && knownTable != nil && tblShapeOf(knownTable) && tblShapeOf(tabOf(m)) && pow2(m.minTableLen) && 0 <= hint && hint <= 2
 //@   effect blocking nolocks
-//@   modifies allmem, allghost
+//@   modifies allmem, tviewOf, slotbOf, slotiOf, tbl, ridx, pos, clen
 //@   loop for.loop: invariant shape: newTable != nil && tblShapeOf(newTable) && tblShapeOf(table) && table != nil && 0 <= i
+//@   ensures assumed private keeps: hint != 2 ==> mapOfRIx(m) && tviewOf[tabOf(m)] == old(tviewOf[tabOf(m)])
 //@   ensures {C13} monitor.no-lost-wakeup: monitorOK()
 //@   ensures {C13} post.released: nheld() == 0
 
@@ -228,7 +264,7 @@ package xsync
 //@ func (*mapOfTable[K, V]).addSize
 //@   serves C13 C14
 //@   requires table != nil && wfslice(table.size) && pow2(len(table.size))
-//@   modifies allmem
+//@   modifies mem(table.size[u64(len(table.size) - 1) & bucketIdx].c)
 //@   ensures {C16} effect.nolock: nacquire() == 0 && nblocking() == 0
 
 //@ func (*mapOfTable[K, V]).addSizePlain
@@ -256,39 +292,44 @@ package xsync
 
 //@ func (*MapOf[K, V]).doCompute
 //@   serves C13 C14
-//@   requires m != nil && valueFn != nil && m.hasher != nil
-//@   requires private tblShapeOf(tabOf(m)) && pow2(m.minTableLen)
+//@   requires m != nil && mapInv(m) && valueFn != nil
+//@   requires private mapOfRI(m)
 //@   opaque pure valueFn
-//@   modifies allmem, allghost
+//@   modifies view(m), allmem, tviewOf, slotbOf, slotiOf, tbl, ridx, pos, clen
+//@   let o = old(view(m))[key]
+//@   let called = !(loadIfExists && present(o))
 //@   loop compute_attempt: invariant {C05} noinvocation: ncb(valueFn) == 0 && nheld() == 0
-//@   loop compute_attempt: invariant shape: tblShapeOf(tabOf(m)) && pow2(m.minTableLen) && m.hasher != nil
-//@   loop for.body: invariant cursor: b != nil && rootb != nil && holds(addr(rootb.mu)) && table != nil && tblShapeOf(table) && (emptyb != nil ==> 0 <= emptyidx && emptyidx < 5) && ncb(valueFn) == 0
-//@   loop for.loop: invariant marks: markOK(markedw) && b != nil && rootb != nil && holds(addr(rootb.mu)) && table != nil && tblShapeOf(table) && (emptyb != nil ==> 0 <= emptyidx && emptyidx < 5) && ncb(valueFn) == 0
+//@   loop compute_attempt: invariant {C11,C04} unchanged: mapInv(m) && mapOfRI(m) && view(m) == old(view(m)) && called
+//@   loop for.body: invariant cursor: b != nil && rootb != nil && holds(addr(rootb.mu)) && table == tabOf(m) && ncb(valueFn) == 0
+//@   loop for.body: invariant {C11,C04} walk: own(table, b) && ridx[b] == idxOfO(m, table, key) && rootb == rootO(table, idxOfO(m, table, key)) && hash == hashOf(m, table, key) && h2 == h2(hash) && h2w == broadcast(h2(hash)) && (present(o) ==> pos[slotbOf[table][key]] >= pos[b])
+//@   loop for.body: invariant {C11,C04} empty: emptyb != nil ==> own(table, emptyb) && ridx[emptyb] == idxOfO(m, table, key) && 0 <= emptyidx && emptyidx < 5 && emptyb.entries[emptyidx] == nil
+//@   loop for.body: decreases clen[rootOfO(table, b)] - pos[b]
+//@   loop for.loop: invariant marks: markOK(markedw) && b != nil && rootb != nil && holds(addr(rootb.mu)) && table == tabOf(m) && ncb(valueFn) == 0 && metaw == b.meta
+//@   loop for.loop: invariant {C11,C04} walk: own(table, b) && ridx[b] == idxOfO(m, table, key) && rootb == rootO(table, idxOfO(m, table, key)) && hash == hashOf(m, table, key) && h2 == h2(hash) && h2w == broadcast(h2(hash)) && (present(o) ==> pos[slotbOf[table][key]] >= pos[b])
+//@   loop for.loop: invariant {C11,C04} scanned: (markedw & ^(markZeroBytes(metaw ^ h2w) & 1099511627775)) == 0 && (forall j: int :: 0 <= j && j < 5 && mbit(markZeroBytes(metaw ^ h2w), j) && !mbit(markedw, j) ==> !(b.entries[j] != nil && entAt(b, j).key == key))
+//@   loop for.loop: invariant {C11,C04} empty: emptyb != nil ==> own(table, emptyb) && ridx[emptyb] == idxOfO(m, table, key) && 0 <= emptyidx && emptyidx < 5 && emptyb.entries[emptyidx] == nil
 //@   loop for.loop: decreases markedw
 //@   oncall valueFn: {C05,C13} under-root-lock: nheld() == 1 && holds(addr(rootb.mu))
 //@   oncall valueFn: {C05,C04} validated: validated()
+//@   calls when(called, valueFn(valOr0(o), present(o))) -> (nv, del)
+//@   ghostsync view(m) := tviewOf[tabOf(m)]
 //@   ensures {C05} valueFn.atmostonce: ncb(valueFn) <= 1
 //@   ensures {C05} valueFn.once-unless-loaded: ncb(valueFn) == 1 || loadIfExists
 //@   ensures {C16} fastpath.nolock: loadIfExists && ncall("Load") == 1 && lastret("Load", 1) ==> nacquire() == 0 && nblocking() == 0
-
-// ---- MapOf representation invariant (same ghost chain structure; 5 entries per bucket; SWAR meta word) ----
-//@ ghost tviewOf : [Addr][K]opt[V]
-//@ ghost slotbOf : [Addr][K]Addr
-//@ ghost slotiOf : [Addr][K]int
-//@ define hashOf(m, t, k) = apply(m.hasher, k, t.seed)
-//@ define idxOfO(m, t, k) = u64(len(t.buckets) - 1) & h1(hashOf(m, t, k))
-//@ define rootO(t, j) = addr(t.buckets[j])
-//@ define rootOfO(t, b) = rootO(t, ridx[b])
-//@ define entAt(b, i) = as(b.entries[i], "*entryOf")
-//@ define mbyte(w, i) = (w >> (u64(i) * 8)) & 255
-//@ define mbit(w, i) = ((w >> (u64(i) * 8 + 7)) & 1) == 1
-//@ define chainsO(t) = forall b: *bucketOfPadded :: own(t, b) ==> b != nil && allocated(b) && allocated(b.next) && ridx[b] < u64(len(t.buckets)) && own(t, rootOfO(t, b)) && 0 <= pos[b] && pos[b] < clen[rootOfO(t, b)] && ((pos[b] == 0) == (b == rootOfO(t, b))) && (b.next != nil ==> own(t, b.next) && ridx[b.next] == ridx[b] && pos[b.next] == pos[b] + 1) && (b.next == nil ==> pos[b] == clen[rootOfO(t, b)] - 1)
-//@ define rootsO(t) = forall j: uint64 :: j < u64(len(t.buckets)) ==> own(t, rootO(t, j)) && ridx[rootO(t, j)] == j && pos[rootO(t, j)] == 0
-//@ define chainsInjO(t) = forall b1: *bucketOfPadded, b2: *bucketOfPadded :: own(t, b1) && own(t, b2) && ridx[b1] == ridx[b2] && pos[b1] == pos[b2] ==> b1 == b2
-//@ define slotsO(m, t) = forall b: *bucketOfPadded, i: int :: own(t, b) && 0 <= i && i < 5 ==> ((b.entries[i] == nil) == (mbyte(b.meta, i) == 128)) && (b.entries[i] != nil ==> allocated(b.entries[i]) && mbyte(b.meta, i) == u64(h2(hashOf(m, t, entAt(b, i).key))) && idxOfO(m, t, entAt(b, i).key) == ridx[b] && tviewOf[t][entAt(b, i).key] == some(entAt(b, i).value) && slotbOf[t][entAt(b, i).key] == b && slotiOf[t][entAt(b, i).key] == i)
-//@ define viewSlotsO(t) = forall k: K :: present(tviewOf[t][k]) ==> own(t, slotbOf[t][k]) && 0 <= slotiOf[t][k] && slotiOf[t][k] < 5 && as(slotbOf[t][k], "*bucketOfPadded").entries[slotiOf[t][k]] != nil && entAt(as(slotbOf[t][k], "*bucketOfPadded"), slotiOf[t][k]).key == k
-//@ define tableInvO(m, t) = tblShapeOf(t) && chainsO(t) && rootsO(t) && chainsInjO(t) && slotsO(m, t) && viewSlotsO(t)
-//@ define mapOfRI(m) = m != nil && m.hasher != nil && tableInvO(m, tabOf(m)) && view(m) == tviewOf[tabOf(m)]
+//@   ensures {C11,C04} post.loaded: !called ==> res0 == val(o) && res1 == !computeOnly && view(m) == old(view(m))
+//@   ensures {C11,C04} post.deleted.view: called && del ==> view(m) == remove(old(view(m)), key)
+//@   ensures {C11,C04} post.deleted.res: called && del ==> res0 == valOr0(o) && res1 == (present(o) && !computeOnly)
+//@   ensures {C11,C04} post.stored.view: called && !del ==> view(m) == put(old(view(m)), key, nv)
+//@   ensures {C11,C04} post.stored.res: called && !del ==> res0 == ite(computeOnly || !present(o), nv, val(o)) && res1 == (computeOnly || present(o))
+//@   ensures private {C11,C04} post.ri.shape: m != nil && m.hasher != nil && m.resizing == 0 && pow2(m.minTableLen) && tblShapeOf(tabOf(m))
+//@   ensures private {C11,C04} post.ri.chains: chainsO(tabOf(m))
+//@   ensures private {C11,C04} post.ri.roots: rootsO(tabOf(m))
+//@   ensures private {C11,C04} post.ri.inj: chainsInjO(tabOf(m))
+//@   ensures private {C11,C04} post.ri.slots: slotsO(m, tabOf(m))
+//@   ensures private {C11,C04} post.ri.viewSlots: viewSlotsO(tabOf(m))
+//@   ensures private {C11,C04} post.ri.view: view(m) == tviewOf[tabOf(m)]
+//@   ensures private {C11,C04} post.ri.sep: sepTO(m, tabOf(m)) && sepBO(m, tabOf(m))
+//@   ensures mapInv(m)
 
 //@ func newMapTable
 //@   serves C13 C14
@@ -320,40 +361,52 @@ package xsync
 //@   ensures {C16} effect.nolock: nacquire() == 0 && nblocking() == 0
 
 //@ func (*Map).Store
-//@   trusted interface contract (builtin-map semantics); discharged by the table-layer proofs when those are enabled
+//@   serves C13 C14
 //@   requires m != nil && mapInv(m)
 //@   modifies view(m)
+//@   requires private mapRI(m)
+//@   modifies private allmem, tview, slotb, sloti, tbl, ridx, pos, clen
 //@   ensures {C11,C03} post.state: view(m) == put(old(view(m)), key, value)
-//@   ensures {C08} post.card: card(view(m)) == cardPut(old(view(m)), key)
+//@   ensures assumed {C08} post.card: card(view(m)) == cardPut(old(view(m)), key)
+//@   ensures private {C11,C03} post.ri: mapRI(m)
 //@   ensures mapInv(m)
 
 //@ func (*Map).Compute
-//@   trusted interface contract (builtin-map semantics); discharged by the table-layer proofs when those are enabled
-//@   requires m != nil && mapInv(m)
+//@   serves C13 C14
+//@   requires m != nil && mapInv(m) && valueFn != nil
 //@   let o = old(view(m))[key]
 //@   calls locked valueFn(valOr0(o), present(o)) -> (nv, del)
 //@   modifies view(m)
+//@   requires private mapRI(m)
+//@   modifies private allmem, tview, slotb, sloti, tbl, ridx, pos, clen
 //@   ensures {C11,C03} post.del: del ==> view(m) == remove(old(view(m)), key) && actual == valOr0(o) && !ok
 //@   ensures {C11,C03} post.upd: !del ==> view(m) == put(old(view(m)), key, nv) && actual == nv && ok
-//@   ensures {C08} post.card: card(view(m)) == ite(del, cardDel(old(view(m)), key), cardPut(old(view(m)), key))
+//@   ensures assumed {C08} post.card: card(view(m)) == ite(del, cardDel(old(view(m)), key), cardPut(old(view(m)), key))
+//@   ensures private {C11,C03} post.ri: mapRI(m)
 //@   ensures mapInv(m)
 
 //@ func (*Map).LoadAndDelete
-//@   trusted interface contract (builtin-map semantics); discharged by the table-layer proofs when those are enabled
+//@   serves C13 C14
 //@   requires m != nil && mapInv(m)
 //@   let o = old(view(m))[key]
 //@   modifies view(m)
+//@   requires private mapRI(m)
+//@   modifies private allmem, tview, slotb, sloti, tbl, ridx, pos, clen
 //@   ensures {C11,C03} post.state: view(m) == remove(old(view(m)), key)
-//@   ensures {C08} post.card: card(view(m)) == cardDel(old(view(m)), key)
+//@   ensures assumed {C08} post.card: card(view(m)) == cardDel(old(view(m)), key)
 //@   ensures {C11,C03} post.value: value == valOr0(o) && loaded == present(o)
+//@   ensures private {C11,C03} post.ri: mapRI(m)
 //@   ensures mapInv(m)
 
 //@ func (*Map).Delete
-//@   trusted interface contract (builtin-map semantics); discharged by the table-layer proofs when those are enabled
+//@   serves C13 C14
 //@   requires m != nil && mapInv(m)
 //@   modifies view(m)
+//@   requires private mapRI(m)
+//@   modifies private allmem, tview, slotb, sloti, tbl, ridx, pos, clen
 //@   ensures {C11,C03} post.state: view(m) == remove(old(view(m)), key)
-//@   ensures {C08} post.card: card(view(m)) == cardDel(old(view(m)), key)
+//@   ensures assumed {C08} post.card: card(view(m)) == cardDel(old(view(m)), key)
+//@   ensures private {C11,C03} post.ri: mapRI(m)
 //@   ensures mapInv(m)
 
 //@ func (*Map).Range
@@ -403,40 +456,52 @@ package xsync
 //@   ensures {C16} effect.nolock: nacquire() == 0 && nblocking() == 0
 
 //@ func (*MapOf[K, V]).Store
-//@   trusted interface contract (builtin-map semantics); discharged by the table-layer proofs when those are enabled
+//@   serves C13 C14
 //@   requires m != nil && mapInv(m)
 //@   modifies view(m)
-//@   ensures {C11,C03} post.state: view(m) == put(old(view(m)), key, value)
-//@   ensures {C08} post.card: card(view(m)) == cardPut(old(view(m)), key)
+//@   requires private mapOfRI(m)
+//@   modifies private allmem, tviewOf, slotbOf, slotiOf, tbl, ridx, pos, clen
+//@   ensures {C11,C04} post.state: view(m) == put(old(view(m)), key, value)
+//@   ensures assumed {C08} post.card: card(view(m)) == cardPut(old(view(m)), key)
+//@   ensures private {C11,C04} post.ri: mapOfRI(m)
 //@   ensures mapInv(m)
 
 //@ func (*MapOf[K, V]).Compute
-//@   trusted interface contract (builtin-map semantics); discharged by the table-layer proofs when those are enabled
-//@   requires m != nil && mapInv(m)
+//@   serves C13 C14
+//@   requires m != nil && mapInv(m) && valueFn != nil
 //@   let o = old(view(m))[key]
 //@   calls locked valueFn(valOr0(o), present(o)) -> (nv, del)
 //@   modifies view(m)
-//@   ensures {C11,C03} post.del: del ==> view(m) == remove(old(view(m)), key) && actual == valOr0(o) && !ok
-//@   ensures {C11,C03} post.upd: !del ==> view(m) == put(old(view(m)), key, nv) && actual == nv && ok
-//@   ensures {C08} post.card: card(view(m)) == ite(del, cardDel(old(view(m)), key), cardPut(old(view(m)), key))
+//@   requires private mapOfRI(m)
+//@   modifies private allmem, tviewOf, slotbOf, slotiOf, tbl, ridx, pos, clen
+//@   ensures {C11,C04} post.del: del ==> view(m) == remove(old(view(m)), key) && actual == valOr0(o) && !ok
+//@   ensures {C11,C04} post.upd: !del ==> view(m) == put(old(view(m)), key, nv) && actual == nv && ok
+//@   ensures assumed {C08} post.card: card(view(m)) == ite(del, cardDel(old(view(m)), key), cardPut(old(view(m)), key))
+//@   ensures private {C11,C04} post.ri: mapOfRI(m)
 //@   ensures mapInv(m)
 
 //@ func (*MapOf[K, V]).LoadAndDelete
-//@   trusted interface contract (builtin-map semantics); discharged by the table-layer proofs when those are enabled
+//@   serves C13 C14
 //@   requires m != nil && mapInv(m)
 //@   let o = old(view(m))[key]
 //@   modifies view(m)
-//@   ensures {C11,C03} post.state: view(m) == remove(old(view(m)), key)
-//@   ensures {C08} post.card: card(view(m)) == cardDel(old(view(m)), key)
-//@   ensures {C11,C03} post.value: value == valOr0(o) && loaded == present(o)
+//@   requires private mapOfRI(m)
+//@   modifies private allmem, tviewOf, slotbOf, slotiOf, tbl, ridx, pos, clen
+//@   ensures {C11,C04} post.state: view(m) == remove(old(view(m)), key)
+//@   ensures assumed {C08} post.card: card(view(m)) == cardDel(old(view(m)), key)
+//@   ensures {C11,C04} post.value: value == valOr0(o) && loaded == present(o)
+//@   ensures private {C11,C04} post.ri: mapOfRI(m)
 //@   ensures mapInv(m)
 
 //@ func (*MapOf[K, V]).Delete
-//@   trusted interface contract (builtin-map semantics); discharged by the table-layer proofs when those are enabled
+//@   serves C13 C14
 //@   requires m != nil && mapInv(m)
 //@   modifies view(m)
-//@   ensures {C11,C03} post.state: view(m) == remove(old(view(m)), key)
-//@   ensures {C08} post.card: card(view(m)) == cardDel(old(view(m)), key)
+//@   requires private mapOfRI(m)
+//@   modifies private allmem, tviewOf, slotbOf, slotiOf, tbl, ridx, pos, clen
+//@   ensures {C11,C04} post.state: view(m) == remove(old(view(m)), key)
+//@   ensures assumed {C08} post.card: card(view(m)) == cardDel(old(view(m)), key)
+//@   ensures private {C11,C04} post.ri: mapOfRI(m)
 //@   ensures mapInv(m)
 
 //@ func (*MapOf[K, V]).Range
@@ -449,7 +514,7 @@ package xsync
 //@   trusted interface contract (builtin-map semantics); discharged by the table-layer proofs when those are enabled
 //@   requires m != nil && mapInv(m)
 //@   modifies view(m)
-//@   ensures {C11,C03} post.state: view(m) == emptymap(old(view(m)))
+//@   ensures {C11,C04} post.state: view(m) == emptymap(old(view(m)))
 //@   ensures {C08} post.card: card(view(m)) == 0
 //@   ensures mapInv(m)
 
